@@ -44,30 +44,24 @@ Theorem C13_globals_released : forall sc,
 Proof. intros sc. split; [exact (globals_released_gen sc)|intros now ms w; exact (end_seq_cur sc now ms w)]. Qed.
 Print Assumptions C13_globals_released.
 
-(* others_as_if_silent (partial).  [quieten m sc] is the script in which module m's callbacks
-   (handle_message, at_sim_start, at_sim_end) "fall silent" wherever those of [sc] panic: they
-   return normally, request shutdown() unless a request is already pending, and the tasks polled in
-   that event end at once.  [events_of] drops the tear-down records; [others m] keeps, in order, every
-   record of every module other than m (callbacks with their time stamps, task steps, sends, logs,
-   requests, resets).  These are the same in the two runs: no other module can tell whether m
-   panicked or merely fell silent -- whichever callbacks of m panic, however often (m may have
-   requested a restart before panicking and panic again later), and whatever m's left-over
-   wake-ups do to the event set.  Since 1526470 (the start-up sweep skips modules that an earlier
-   stage deactivated) this holds for modules with any number of start-up stages whose stereotype
-   does not catch panics, and for catching modules with a single stage.
-   Still missing for the full statement (no hypothesis, tear-down included):
-   (1) catching modules with several stages: ModuleRef::module_restart goes on with the later stages
-       after a caught panic of an earlier one (Harness::catch returns Ok), and their yield polls the
-       tasks spawned before the panic, which can restart the module and send.  The statement is
-       FALSE there, of the model and of the code (Refuted/C13.v, corpus/C13/multistage_panic.txt line 3,
-       proposed patch fixes/F17.diff);
-   (2) the tear-down records of the other modules agree only up to their time stamp (left-over
-       wake-ups of the dead module move the end of the simulation): checked by the monitor, not proved. *)
-Theorem C13_others_as_if_silent_partial : forall sc m,
-  c_stages (cfg sc m) = 1 \/ c_catch (cfg sc m) = false ->
+(* others_as_if_silent.  [quieten m sc] is the script in which module m's callbacks (handle_message,
+   at_sim_start, at_sim_end) "fall silent" wherever those of [sc] panic: they return normally, request
+   shutdown() unless a request is already pending, and the tasks polled in that event end at once.
+   [events_of] drops the tear-down records; [others m] keeps, in order, every record of every module
+   other than m (callbacks with their time stamps, task steps, sends, logs, requests, resets).  These
+   are the same in the two runs, for every script and every module m: no other module can tell
+   whether m panicked or merely fell silent -- whichever callbacks of m panic, however often (m may
+   have requested a restart before panicking and panic again later), whatever its stereotype and
+   number of start-up stages, and whatever m's left-over wake-ups do to the event set.
+   (False of the code before 1526470 for every module with several start-up stages and before 9e87d89
+   for catching ones: Refuted/C13.v, corpus/C13/multistage_panic.txt.)
+   Not covered: the tear-down records of the other modules.  They agree only up to their time stamp
+   (left-over wake-ups of the dead module move the instant the simulation ends at); that is checked by
+   the monitor on the implementation, not proved. *)
+Theorem C13_others_as_if_silent : forall sc m,
   others m (items (events_of (trace sc))) = others m (items (events_of (trace (quieten m sc)))).
-Proof. intros sc m H. apply (others_as_if_silent sc m H); apply run_terminates. Qed.
-Print Assumptions C13_others_as_if_silent_partial.
+Proof. intros sc m. apply (others_as_if_silent sc m); apply run_terminates. Qed.
+Print Assumptions C13_others_as_if_silent.
 
 (* Non-vacuity.  Module 0 panics in handle_message at t = 2 (its task would have logged 7 at
    t = 3); module 2 has the catching stereotype and panics in at_sim_start. *)
